@@ -72,6 +72,8 @@ type c15Res struct {
 	BufErr       string          `json:"buf_err"`
 	Environ      []string        `json:"environ"`
 	Dump         json.RawMessage `json:"dump"`
+	Hung         int             `json:"hung"`                    // 0: the call returned by itself; 1: only after the far side of its stdin was closed; 2: never
+	StdinRest    string          `json:"stdin_rest"`              // fn "seq": what is left on the caller's stdin after the sequence
 	StdinKind    string          `json:"stdin_kind"`              // the kind actually used (pty falls back to file where no pty is available)
 	Group        []c15Res        `json:"group,omitempty"`         // fn "group": one answer per call
 	EnvironAfter []string        `json:"environ_after,omitempty"` // fn "group": os.Environ() after all calls returned
@@ -224,11 +226,15 @@ func c15Do(q c15Req) (res c15Res) {
 	if q.Fn == "group" {
 		return c15Group(q, res)
 	}
+	if q.Fn == "seq" {
+		return c15Seq(q, res)
+	}
 
 	// standard streams of the caller: os.Stdin / os.Stdout / os.Stderr are REASSIGNED for this call, to files or
 	// (streams == "pipe") to pipes whose other ends the op serves
 	var fin, fout, ferr *os.File
 	var outCh, errCh chan []byte
+	var unblock func() // closes the far side of a socket / pty stdin: a call blocked on the caller's stdin gets EOF
 	if q.Streams == "pipe" {
 		ir, iw, err := os.Pipe()
 		if err != nil {
@@ -264,6 +270,7 @@ func c15Do(q c15Req) (res c15Res) {
 		}
 		if cleanup != nil {
 			defer cleanup()
+			unblock = cleanup
 		}
 		// fresh files per request: a late write of a descendant of an earlier request's child must not
 		// reach this request's captures
@@ -288,7 +295,7 @@ func c15Do(q c15Req) (res c15Res) {
 	var rerr error
 	var text string
 	var bo, be bytes.Buffer
-	func() {
+	res.Hung = c15Watchdog(unblock, func() {
 		defer restore()
 		switch q.Fn {
 		case "Run":
@@ -323,7 +330,14 @@ func c15Do(q c15Req) (res c15Res) {
 		default:
 			res.Error = "bad fn " + q.Fn
 		}
-	}()
+	})
+	if res.Hung == 2 {
+		res.Error = ""
+		fin.Close()
+		fout.Close()
+		ferr.Close()
+		return res // the call never returned (its goroutine is abandoned)
+	}
 	fin.Close()
 	fout.Close()
 	ferr.Close()
@@ -614,4 +628,106 @@ func c15Stdin(kind, inPath string, payload []byte, tmp string) (f *os.File, clea
 	}
 	f, err = os.Open(inPath)
 	return f, nil, "file", err
+}
+
+// c15Seq runs the calls of q one after the other in this process with ONE os.Stdin for the whole sequence (a file,
+// a pipe with everything written up front, or a pty with the lines typed ahead): every child reads only its own
+// portion (helper --c15-read), the remainder must still be there for the next command and, at the end, for the caller.
+func c15Seq(q c15Req, res c15Res) c15Res {
+	payload := []byte(c15Unhex(q.Stdin))
+	var fin *os.File
+	var cleanup func()
+	var err error
+	switch q.StdinKind {
+	case "pipe":
+		r, w, e := os.Pipe()
+		if e != nil {
+			return c15Res{Error: e.Error()}
+		}
+		w.Write(payload) // fits the pipe buffer
+		w.Close()
+		fin = r
+		res.StdinKind = "pipe"
+	default:
+		inPath := filepath.Join(q.Tmp, "c15-seq-stdin")
+		if err = ioutil.WriteFile(inPath, payload, 0600); err != nil {
+			return c15Res{Error: err.Error()}
+		}
+		if fin, cleanup, res.StdinKind, err = c15Stdin(q.StdinKind, inPath, payload, q.Tmp); err != nil {
+			return c15Res{Error: err.Error()}
+		}
+	}
+	if cleanup != nil {
+		defer cleanup()
+	}
+	fout, err := ioutil.TempFile(q.Tmp, "c15-sout-")
+	if err != nil {
+		return c15Res{Error: err.Error()}
+	}
+	ferr, err := ioutil.TempFile(q.Tmp, "c15-serr-")
+	if err != nil {
+		return c15Res{Error: err.Error()}
+	}
+	defer os.Remove(fout.Name())
+	defer os.Remove(ferr.Name())
+	for _, c := range q.Calls {
+		os.Remove(c.Dump)
+	}
+	oin, oout, oerr := os.Stdin, os.Stdout, os.Stderr
+	os.Stdin, os.Stdout, os.Stderr = fin, fout, ferr
+	results := make([]c15Res, len(q.Calls))
+	for i := range q.Calls {
+		i := i
+		if h := c15Watchdog(cleanup, func() { results[i] = c15Invoke(q.Calls[i]) }); h != 0 {
+			res.Hung = h
+			if h == 2 {
+				results[i] = c15Res{Hung: 2}
+				break
+			}
+			results[i].Hung = h
+		}
+	}
+	os.Stdin, os.Stdout, os.Stderr = oin, oout, oerr
+	var rest []byte
+	if res.Hung == 0 {
+		rest, _ = ioutil.ReadAll(fin)
+	}
+	res.StdinRest = hex.EncodeToString(rest)
+	fin.Close()
+	fout.Close()
+	ferr.Close()
+	b, _ := ioutil.ReadFile(fout.Name())
+	res.OsStdout = hex.EncodeToString(b)
+	b, _ = ioutil.ReadFile(ferr.Name())
+	res.OsStderr = hex.EncodeToString(b)
+	res.Group = results
+	for _, e := range os.Environ() {
+		res.EnvironAfter = append(res.EnvironAfter, c15Hex(e))
+	}
+	return res
+}
+
+// c15Watchdog runs f; a call of package sh must not wait for more input on the caller's stdin than the command
+// reads.  After 20 s without a return the far side of a socket / pty stdin is closed (unblock), after 20 s more the
+// call is given up.  0: returned by itself, 1: returned after unblock, 2: never returned (f's goroutine is abandoned).
+func c15Watchdog(unblock func(), f func()) int {
+	done := make(chan struct{})
+	go func() {
+		defer close(done)
+		f()
+	}()
+	select {
+	case <-done:
+		return 0
+	case <-time.After(20 * time.Second):
+	}
+	if unblock != nil {
+		unblock()
+	}
+	select {
+	case <-done:
+		return 1
+	case <-time.After(20 * time.Second):
+	}
+	return 2
 }
